@@ -14,7 +14,8 @@ LEVEL_NOTE = ("peek() is not executable under the installed toolchain (third-par
               "peek scripts are compiled + HUGR-validated only, their values are NOT observed. Trusted: the two reference models (20 lines); values are unique ids so every popped entry "
               "identifies the push it came from; adapter + lowering + installed selene.")
 TECHNIQUE = "history checker against executable sequential models (unique-id values) over emulator result streams"
-RULE = ("scripts of 4-24 ops, capacity 1-8, priorities from {0,1,2} or random in [-50,50], values = "
+RULE = ("half of the scripts: capacity 10-20, filled to 7-20 live entries, churned and drained completely; "
+        "the other half: scripts of 4-24 ops, capacity 1-8, priorities from {0,1,2} or random in [-50,50], values = "
         "unique ids; ops push/pop/peek/len, optionally ending in overflow or empty pop/peek. distinct = "
         "(collection, capacity, op-kind sequence)")
 FLOORS = {"scripts_emulated": 20, "ops_checked": 200, "expected_panics": 3}
@@ -28,10 +29,35 @@ def plan(tier, seed):
     return {"n_cases": n, "floors": {"evaluations": n // 3}}
 
 
-def build(rng, kind, with_peek=False):
+def build(rng, kind, with_peek=False, big=False):
     cap = rng.randint(1, 8)
     nops = rng.randint(4, 24)
     small = rng.random() < 0.6
+    if big:
+        # deep heaps: 10-20 live entries (sift paths of length 3-4 through even and odd slots),
+        # filled first, churned, then drained completely so the whole order is observed
+        cap = rng.choice([10, 12, 14, 16, 20])
+        fill = rng.randint(cap - 3, cap)
+        prange = rng.choice([(0, 9), (0, 3), (-50, 50)])
+        ops = []
+        uid = 100
+        size = 0
+        for _ in range(fill):
+            uid += 1
+            ops.append(("push", uid, rng.randint(*prange), False))
+            size += 1
+        for _ in range(rng.randint(0, 10)):
+            op = rng.choice(["pop", "push", "len"]) if 0 < size < cap else ("pop" if size else "push")
+            uid += 1
+            ops.append((op, uid, rng.randint(*prange), False))
+            size += {"push": 1, "pop": -1, "len": 0}[op]
+        while size > 0:
+            uid += 1
+            ops.append(("pop", uid, 0, False))
+            size -= 1
+        lines = [f"    c: Stack[int, {cap}] = empty_stack()" if kind == "stack" else
+                 f"    c: PriorityQueue[int, {cap}] = empty_priority_queue()"]
+        return _render(kind, ops, lines), ops, cap
     lines = []
     if kind == "stack":
         lines.append(f"    c: Stack[int, {cap}] = empty_stack()")
@@ -65,6 +91,10 @@ def build(rng, kind, with_peek=False):
             size += 1
         elif op == "pop":
             size -= 1
+    return _render(kind, ops, lines), ops, cap
+
+
+def _render(kind, ops, lines):
     for k, (op, v, p, bad) in enumerate(ops):
         if op == "push":
             lines.append(f"    c = c.push({v})" if kind == "stack" else f"    c = c.push({v}, {p})")
@@ -79,8 +109,7 @@ def build(rng, kind, with_peek=False):
         else:
             lines.append('    result("len", len(c))')
     lines.append('    result("endlen", len(c))')
-    text = HDR + "@guppy\ndef main() -> None:\n" + "\n".join(lines) + "\n"
-    return text, ops, cap
+    return HDR + "@guppy\ndef main() -> None:\n" + "\n".join(lines) + "\n"
 
 
 def check_history(kind, ops, cap, stream, panic):
@@ -201,8 +230,10 @@ def run_case(ctx, rng, idx, params, tier):
         rec = validate_only(ctx, text)
         rec["fp"] = f"peek:{kind}:{cap}:" + "".join(o[0][:2] for o in ops)
         return rec
-    text, ops, cap = build(rng, kind)
+    big = kind == "pq" and idx % 4 != 0
+    text, ops, cap = build(rng, kind, big=big)
     rec = judge_text(ctx, text, kind, ops, cap)
+    rec.setdefault("counters", {})["deep_heap_scripts" if big and kind == "pq" else "scripts_small"] = 1
     if rec["status"] != "discard":
         rec["fp"] = f"{kind}:{cap}:" + "".join(o[0][:2] for o in ops)
         if idx < 2:
